@@ -12,6 +12,7 @@ import (
 	"runtime"
 	"sort"
 	"sync"
+	"time"
 
 	"github.com/onflow/atree"
 )
@@ -202,8 +203,11 @@ func (w *World) commitWithEncodeFailure(st *Step, cv concVariant, r *Rng) *Viola
 		}
 	} else {
 		run()
-		for i := 0; i < 2000 && runtime.NumGoroutine() > g0; i++ {
+		for i := 0; i < 3000 && runtime.NumGoroutine() > g0; i++ {
 			runtime.Gosched()
+			if i > 50 {
+				time.Sleep(time.Millisecond)
+			}
 		}
 	}
 	fired := w.Ctl.Fired["encode"] - fired0
